@@ -369,7 +369,7 @@ func c15Case(env *Env, tape *sim.Tape) *CaseOut {
 }
 
 func c15Search(s *Search) {
-	for i := uint64(0); s.More(); i++ {
+	for i := s.Base(); s.More(); i++ {
 		if !s.Mine(int(i)) {
 			continue
 		}
